@@ -42,6 +42,7 @@ LOGS = os.path.join(WORK, "logs")
 EVID = os.path.join(VERIF, "evidence")
 REPLAYS = os.path.join(VERIF, "replays")
 KNOWN = os.path.join(VERIF, "known_findings.json")
+PARTIAL = False
 GUARD = "--cfg markschl_seq_io_verif --check-cfg cfg(markschl_seq_io_verif)"
 
 ENV = dict(os.environ)
@@ -464,6 +465,8 @@ def main():
     sel = [h for h in reg.values() if (prop in h["props"] or prop == "ALL")
            and (tier == "thorough" or (h["tier"] == "quick" and prop not in h["props_thorough_only"]))]
     if only:
+        global PARTIAL
+        PARTIAL = True
         sel = [h for h in sel if (only.search(h["name"]) if hasattr(only, "search") else h["name"] == only)]
     sel.sort(key=lambda h: -h["timeout"])
     if not sel:
@@ -602,8 +605,10 @@ def write_evidence(prop, tier, seed, results, wall, nviol, known, build_failed=F
         wall_s=round(wall, 1),
         violations=nviol,
     )
-    os.makedirs(EVID, exist_ok=True)
-    json.dump(ev, open(os.path.join(EVID, prop + ".json"), "w"), indent=1)
+    # partial runs (--only / --match / ALL surveys) must not replace the evidence of a full run
+    dest = EVID if not PARTIAL and prop.startswith("C") else os.path.join(WORK, "evidence-partial")
+    os.makedirs(dest, exist_ok=True)
+    json.dump(ev, open(os.path.join(dest, prop + ".json"), "w"), indent=1)
 
 
 if __name__ == "__main__":
